@@ -1,6 +1,6 @@
 // C06: arrays are values — writes through a copy never show through the original.
 //
-// Form H over a complete matrix: shape (8) x aliasing route (12) x mutation (23) x mutated side
+// Form H over a complete matrix: shape (8) x aliasing route (16) x mutation (23) x mutated side
 // (copy | original), and every chain of two routes x mutation x mutated name; thorough adds
 // sequences of two mutations. Every case
 // is one script on a fresh parser + VM that prints a json_encode+serialize snapshot of every live
@@ -312,7 +312,7 @@ func findings(k kase, o outcome, jc *judgeCache) []finding {
 	}
 	if o.OuterLeak && len(o.Leaks) == 0 {
 		// only the caller-side snapshots (taken around the call) saw the write to the parameter
-		class := "toplevel"
+		class := o.B.classes[0]
 		for _, c := range o.B.classes {
 			if c == "interior" {
 				class = "interior"
